@@ -33,9 +33,9 @@ IndexNames == <<"linear", "kdtree", "balltree">>
 MetricsFor(dim, h) ==
   IF dim >= 2 THEN {"l1", "l2", "linf"} ELSE {<<"l1", "l2", "linf">>[(h % 3) + 1]}
 
-Mk(dim, pts, mp, en, ed, metric) ==
+Mk(kind, dim, pts, mp, en, ed, metric) ==
   LET h == Hash(pts, mp, en) IN
-  [kind |-> "density",
+  [kind |-> kind,
    inp |-> [dim |-> dim, pts |-> pts, minpts |-> mp, eps |-> [n |-> en, d |-> ed], metric |-> metric,
             ft |-> Ft(h), leaf |-> Leaf(h), dsindex |-> IndexNames[((h \div 3) % 3) + 1]]]
 
@@ -56,10 +56,10 @@ Init ==
      \E mp \in MinPtsSet, ee \in EpsSet :
        /\ Normal(pts, lt \div 100)
        /\ \E metric \in MetricsFor(lt \div 100, Hash(pts, mp, ee \div 10)) :
-            case = Mk(lt \div 100, pts, mp, ee \div 10, ee % 10, metric)
+            case = Mk("density", lt \div 100, pts, mp, ee \div 10, ee % 10, metric)
   \/ /\ Specials = 1
      /\ \E pts \in SpecialPts, mp \in {2, 3}, ee \in SpecialEps, metric \in {"l1", "l2", "linf"} :
-          case = Mk(Len(pts[1]), pts, mp, ee[1], ee[2], metric)
+          case = Mk("special", Len(pts[1]), pts, mp, ee[1], ee[2], metric)
 
 Next == UNCHANGED case
 Emit == PrintT("CASE " \o ToJson(case))
